@@ -333,66 +333,93 @@ Section WithBody.
       destruct (place_call (locate _ s)); try reflexivity; unfold put_back; destruct (locate _ s); reflexivity.
   Qed.
 
+  (** the state with which the loop continues after popping [c] (rest of the heap [h']) *)
+  Definition after_pop (tnow : Z) (s : st) (c : call) (h' : list call) : st :=
+    if ccanc c then mkSt h' (nw s) (cancels s - 1) (now s) (next s) (log s) (oof s)
+    else if 0 <? cdelay c then
+      mkSt (heappush ctime dcall h' (activate c)) (nw s) (cancels s) (now s) (next s) (log s) (oof s)
+    else
+      emit (EEnd (cid c))
+           (fold_left exec_bop (body (cid c))
+              (mkSt h' (nw s) (cancels s) (now s) (next s) (ERun c tnow (filter active h') :: log s) (oof s))).
+
+  Lemma loop_unfold : forall f tnow s top t c h',
+    hp s = top :: t -> (ctime top <=? tnow) = true -> heappop ctime dcall (top :: t) = Some (c, h') ->
+    loop body (S f) tnow s = loop body f tnow (after_pop tnow s c h').
+  Proof.
+    intros f tnow s top t c h' Eh Edue Ep. cbn [loop]. rewrite Eh, Edue, Ep. unfold after_pop.
+    destruct (ccanc c); [reflexivity|]. destruct (0 <? cdelay c); reflexivity.
+  Qed.
+
+  Lemma Inv_after_pop : forall tnow s top t c h', Inv s ->
+    hp s = top :: t -> ctime top <= tnow -> heappop ctime dcall (top :: t) = Some (c, h') ->
+    Inv (after_pop tnow s c h').
+  Proof.
+    intros tnow s top t c h' H Eh Edue Ep. unfold after_pop.
+    pose proof (inv_heap _ H) as Hh. rewrite Eh in Hh.
+    destruct (heappop_spec call ctime dcall _ _ _ Hh Ep) as [Pp [Hh' Hmin]].
+    pose proof (inv_delay _ H) as Hd. pose proof (inv_ids _ H) as Hi. rewrite Eh in Hd, Hi.
+    assert (Hd' : Forall (fun c0 => 0 <= cdelay c0) ((c :: h') ++ nw s)).
+    { eapply Permutation_Forall; [|exact Hd]. apply Permutation_app_tail. apply Permutation_sym. exact Pp. }
+    assert (Hi' : Forall (fun c0 => (cid c0 < next s)%nat) ((c :: h') ++ nw s)).
+    { eapply Permutation_Forall; [|exact Hi]. apply Permutation_app_tail. apply Permutation_sym. exact Pp. }
+    assert (Hact : Permutation (act ((c :: h') ++ nw s)) (act (hp s ++ nw s))).
+    { rewrite Eh. apply act_perm. apply Permutation_app_tail. exact Pp. }
+    assert (Hctop : ctime c <= tnow).
+    { assert (Hin : In top (c :: h')) by (eapply Permutation_in; [apply Permutation_sym; exact Pp | left; reflexivity]).
+      destruct Hin as [->|Hin]; [exact Edue|]. specialize (Hmin top Hin). lia. }
+    cbn [app] in Hd', Hi'. inversion Hd' as [|? ? Hdc Hdr]; subst. inversion Hi' as [|? ? Hic Hir]; subst.
+    destruct (ccanc c) eqn:Ec.
+    - apply Inv_relist; auto.
+      eapply perm_trans; [|exact Hact]. cbn [app]. rewrite act_cons. unfold active. rewrite Ec. cbn.
+      apply Permutation_refl.
+    - destruct (0 <? cdelay c) eqn:Edel.
+      + destruct (heappush_spec call ctime dcall h' (activate c) Hh') as [Pq Hq].
+        apply Inv_relist; auto.
+        * eapply Permutation_Forall; [apply Permutation_app_tail; apply Permutation_sym; exact Pq|].
+          cbn [app]. constructor; [cbn; lia | exact Hdr].
+        * eapply Permutation_Forall; [apply Permutation_app_tail; apply Permutation_sym; exact Pq|].
+          cbn [app]. constructor; [exact Hic | exact Hir].
+        * eapply perm_trans; [|exact Hact].
+          eapply perm_trans; [apply act_perm; apply Permutation_app_tail; exact Pq|].
+          cbn [app]. rewrite !act_cons. unfold active, activate. cbn. apply Permutation_refl.
+      + apply Z.ltb_ge in Edel. assert (Hz : cdelay c = 0) by lia.
+        apply Inv_emit_plain; cbn; auto. apply Inv_exec_body.
+        destruct H as [H1 H2 H3 H4 H5]. split; simpl_st.
+        * exact Hh'.
+        * exact Hdr.
+        * exact Hir.
+        * rewrite trun_ids_cons, tcancelled_ids_cons. cbn [run_of cancel_of map app].
+          eapply perm_trans; [|exact H4].
+          eapply perm_trans; [apply tperm_move_mid2|].
+          change (cid c :: act (h' ++ nw s) ++ run_ids (log s) ++ cancelled_ids (log s))
+            with ((cid c :: act (h' ++ nw s)) ++ run_ids (log s) ++ cancelled_ids (log s)).
+          apply Permutation_app_tail. eapply perm_trans; [|exact Hact].
+          cbn [app]. rewrite act_cons. unfold active. rewrite Ec. cbn. apply Permutation_refl.
+        * constructor; [|exact H5]. cbn. unfold getTime. split; [lia|].
+          apply Forall_forall. intros o Ho. apply filter_In in Ho. destruct Ho as [Ho _].
+          specialize (Hmin o Ho). apply Forall_app in Hdr. destruct Hdr as [Hdr _].
+          rewrite Forall_forall in Hdr. specialize (Hdr o Ho). cbn in Hdr. lia.
+  Qed.
+
   Lemma loop_spec : forall fuel tnow s, Inv s ->
     Inv (loop body fuel tnow s)
     /\ (oof (loop body fuel tnow s) = false -> Forall (fun c => tnow < ctime c) (hp (loop body fuel tnow s))).
   Proof.
-    induction fuel as [|f IH]; intros tnow s H; cbn [loop].
-    - destruct (hp s) as [|top t] eqn:Eh; [split; [exact H | intros _; rewrite Eh; constructor]|].
+    induction fuel as [|f IH]; intros tnow s H.
+    - cbn [loop]. destruct (hp s) as [|top t] eqn:Eh; [split; [exact H | intros _; rewrite Eh; constructor]|].
       destruct (ctime top <=? tnow) eqn:Edue.
       + split; [|cbn; discriminate]. destruct H as [H1 H2 H3 H4 H5]. rewrite Eh in *. split; cbn; assumption.
       + split; [exact H|]. intros _. rewrite Eh. apply Z.leb_gt in Edue.
         pose proof (inv_heap _ H) as Hh. rewrite Eh in Hh. apply Forall_forall. intros y Hy.
         pose proof (heap_root_min_in call ctime dcall _ Hh y Hy) as Hm. cbn in Hm. lia.
-    - destruct (hp s) as [|top t] eqn:Eh; [split; [exact H | intros _; rewrite Eh; constructor]|].
+    - destruct (hp s) as [|top t] eqn:Eh; [cbn [loop]; rewrite Eh; split; [exact H | intros _; rewrite Eh; constructor]|].
       destruct (ctime top <=? tnow) eqn:Edue.
-      + apply Z.leb_le in Edue.
-        destruct (heappop ctime dcall (top :: t)) as [[c h']|] eqn:Ep; [|split; [exact H | intros _; apply heappop_none in Ep; discriminate]].
-        pose proof (inv_heap _ H) as Hh. rewrite Eh in Hh.
-        destruct (heappop_spec call ctime dcall _ _ _ Hh Ep) as [Pp [Hh' Hmin]].
-        pose proof (inv_delay _ H) as Hd. pose proof (inv_ids _ H) as Hi. rewrite Eh in Hd, Hi.
-        assert (Hd' : Forall (fun c0 => 0 <= cdelay c0) ((c :: h') ++ nw s)).
-        { eapply Permutation_Forall; [|exact Hd]. apply Permutation_app_tail. apply Permutation_sym. exact Pp. }
-        assert (Hi' : Forall (fun c0 => (cid c0 < next s)%nat) ((c :: h') ++ nw s)).
-        { eapply Permutation_Forall; [|exact Hi]. apply Permutation_app_tail. apply Permutation_sym. exact Pp. }
-        assert (Hact : Permutation (act ((c :: h') ++ nw s)) (act (hp s ++ nw s))).
-        { rewrite Eh. apply act_perm. apply Permutation_app_tail. exact Pp. }
-        assert (Hctop : ctime c <= tnow).
-        { assert (Hin : In top (c :: h')) by (eapply Permutation_in; [apply Permutation_sym; exact Pp | left; reflexivity]).
-          destruct Hin as [->|Hin]; [exact Edue|]. specialize (Hmin top Hin). lia. }
-        cbn [app] in Hd', Hi'. inversion Hd' as [|? ? Hdc Hdr]; subst. inversion Hi' as [|? ? Hic Hir]; subst.
-        destruct (ccanc c) eqn:Ec.
-        * apply IH. apply Inv_relist; auto.
-          eapply perm_trans; [|exact Hact]. cbn [app]. rewrite act_cons. unfold active. rewrite Ec. cbn.
-          apply Permutation_refl.
-        * destruct (0 <? cdelay c) eqn:Edel.
-          { apply IH. destruct (heappush_spec call ctime dcall h' (activate c) Hh') as [Pq Hq].
-            apply Inv_relist; auto.
-            - eapply Permutation_Forall; [apply Permutation_app_tail; apply Permutation_sym; exact Pq|].
-              cbn [app]. constructor; [cbn; lia | exact Hdr].
-            - eapply Permutation_Forall; [apply Permutation_app_tail; apply Permutation_sym; exact Pq|].
-              cbn [app]. constructor; [exact Hic | exact Hir].
-            - eapply perm_trans; [|exact Hact].
-              eapply perm_trans; [apply act_perm; apply Permutation_app_tail; exact Pq|].
-              cbn [app]. rewrite !act_cons. unfold active, activate. cbn. apply Permutation_refl. }
-          { apply Z.ltb_ge in Edel. assert (Hz : cdelay c = 0) by lia.
-            apply IH. apply Inv_emit_plain; cbn; auto. apply Inv_exec_body.
-            destruct H as [H1 H2 H3 H4 H5]. split; simpl_st.
-            - exact Hh'.
-            - exact Hdr.
-            - exact Hir.
-            - rewrite trun_ids_cons, tcancelled_ids_cons. cbn [run_of cancel_of map app].
-              eapply perm_trans; [|exact H4].
-              eapply perm_trans; [apply tperm_move_mid2|].
-              change (cid c :: act (h' ++ nw s) ++ run_ids (log s) ++ cancelled_ids (log s))
-                with ((cid c :: act (h' ++ nw s)) ++ run_ids (log s) ++ cancelled_ids (log s)).
-              apply Permutation_app_tail. eapply perm_trans; [|exact Hact].
-              cbn [app]. rewrite act_cons. unfold active. rewrite Ec. cbn. apply Permutation_refl.
-            - constructor; [|exact H5]. cbn. unfold getTime. split; [lia|].
-              apply Forall_forall. intros o Ho. apply filter_In in Ho. destruct Ho as [Ho _].
-              specialize (Hmin o Ho). apply Forall_app in Hdr. destruct Hdr as [Hdr _].
-              rewrite Forall_forall in Hdr. specialize (Hdr o Ho). cbn in Hdr. lia. }
-      + split; [exact H|]. intros _. rewrite Eh. apply Z.leb_gt in Edue.
+      + destruct (heappop ctime dcall (top :: t)) as [[c h']|] eqn:Ep.
+        * rewrite (loop_unfold f tnow s top t c h' Eh Edue Ep). apply IH.
+          apply (Inv_after_pop tnow s top t c h' H Eh); [apply Z.leb_le; exact Edue | exact Ep].
+        * apply heappop_none in Ep. discriminate.
+      + cbn [loop]. rewrite Eh, Edue. split; [exact H|]. intros _. rewrite Eh. apply Z.leb_gt in Edue.
         pose proof (inv_heap _ H) as Hh. rewrite Eh in Hh. apply Forall_forall. intros y Hy.
         pose proof (heap_root_min_in call ctime dcall _ Hh y Hy) as Hm. cbn in Hm. lia.
   Qed.
@@ -467,6 +494,120 @@ Section WithBody.
 
   Lemma reach_Inv : forall fuel ops, Inv (run body fuel init ops).
   Proof. intros. apply Inv_run. apply Inv_init. Qed.
+
+
+  (** ---- a call scheduled during an iteration does not run in that iteration ---- *)
+  Lemma put_back_hp_ids : forall (N : nat) s i c c' moved dc e,
+    place_call (locate i s) = Some c -> cid c' = cid c ->
+    Forall (fun x => (cid x < N)%nat) (hp s) ->
+    Forall (fun x => (cid x < N)%nat) (hp (put_back s (locate i s) c' moved dc e)).
+  Proof.
+    intros N s i c c' moved dc e Hpl Hid Hf.
+    destruct (locate i s) as [p c0|c0|] eqn:El; cbn in Hpl; inversion Hpl; subst c0; cbn [put_back hp].
+    - destruct (locate_heap _ _ _ _ El) as [Hp [Hc _]].
+      destruct (upd_split (hp s) p c' Hp) as [l1 [l2 [E1 E2]]].
+      assert (Hu : Forall (fun x => (cid x < N)%nat) (upd (hp s) p c')).
+      { rewrite E2. rewrite E1 in Hf. eapply PU_Forall; [exact Hf|]. cbn. rewrite Hid, Hc.
+        apply Forall_app in Hf. destruct Hf as [_ Hf]. inversion Hf; subst. assumption. }
+      destruct moved; [|exact Hu].
+      eapply Permutation_Forall; [|exact Hu]. apply Permutation_sym. apply bubble_up_perm.
+      rewrite upd_length. exact Hp.
+    - exact Hf.
+  Qed.
+
+  Lemma exec_bop_hp_ids : forall (N : nat) s b,
+    Forall (fun x => (cid x < N)%nat) (hp s) -> Forall (fun x => (cid x < N)%nat) (hp (exec_bop s b)).
+  Proof.
+    intros N s b Hf. destruct b as [d|i|i x|i x|]; cbn [exec_bop]; try exact Hf.
+    - destruct (place_call (locate i s)) as [c|] eqn:Hpl; [|exact Hf].
+      apply put_back_hp_ids with (c := c); auto.
+    - destruct (place_call (locate i s)) as [c|] eqn:Hpl; [|exact Hf].
+      apply put_back_hp_ids with (c := c); auto. apply reset_shape.
+    - destruct (place_call (locate i s)) as [c|] eqn:Hpl; [|exact Hf].
+      apply put_back_hp_ids with (c := c); auto. apply delay_shape.
+  Qed.
+
+  Lemma exec_bop_log : forall s b, exists e, log (exec_bop s b) = e :: log s /\ run_of e = [].
+  Proof.
+    intros s b. destruct b as [d|i|i x|i x|]; cbn [exec_bop].
+    - eexists. split; reflexivity.
+    - destruct (place_call (locate i s)) as [c|] eqn:Hpl.
+      + destruct (locate i s); cbn in Hpl; try discriminate; eexists; split; reflexivity.
+      + unfold classify. destruct (memn _ _); [|destruct (memn _ _)]; eexists; split; reflexivity.
+    - destruct (place_call (locate i s)) as [c|] eqn:Hpl.
+      + destruct (locate i s); cbn in Hpl; try discriminate; eexists; split; reflexivity.
+      + unfold classify. destruct (memn _ _); [|destruct (memn _ _)]; eexists; split; reflexivity.
+    - destruct (place_call (locate i s)) as [c|] eqn:Hpl.
+      + destruct (locate i s); cbn in Hpl; try discriminate; eexists; split; reflexivity.
+      + unfold classify. destruct (memn _ _); [|destruct (memn _ _)]; eexists; split; reflexivity.
+    - eexists. split; reflexivity.
+  Qed.
+
+  Lemma exec_body_old : forall (N : nat) bs s,
+    Forall (fun x => (cid x < N)%nat) (hp s) ->
+    Forall (fun x => (cid x < N)%nat) (hp (fold_left exec_bop bs s))
+    /\ (forall c n o, In (ERun c n o) (log (fold_left exec_bop bs s)) -> In (ERun c n o) (log s)).
+  Proof.
+    intros N bs. induction bs as [|b r IH]; cbn [fold_left]; intros s Hf; [split; auto|].
+    destruct (IH (exec_bop s b) (exec_bop_hp_ids N s b Hf)) as [A1 A2]. split; [exact A1|].
+    intros c n o Hin. specialize (A2 c n o Hin).
+    destruct (exec_bop_log s b) as [e [El Er]]. rewrite El in A2. destruct A2 as [->|A2]; [discriminate | exact A2].
+  Qed.
+
+  Lemma after_pop_old : forall (N : nat) tnow s c h',
+    Forall (fun x => (cid x < N)%nat) (c :: h') -> hheap h' ->
+    Forall (fun x => (cid x < N)%nat) (hp (after_pop tnow s c h'))
+    /\ (forall c0 n o, In (ERun c0 n o) (log (after_pop tnow s c h')) -> In (ERun c0 n o) (log s) \/ (cid c0 < N)%nat).
+  Proof.
+    intros N tnow s c h' Hf Hh'. inversion Hf as [|? ? Hc Hr]; subst. unfold after_pop.
+    destruct (ccanc c); [split; [exact Hr | auto]|].
+    destruct (0 <? cdelay c).
+    - split; [|auto]. cbn [hp]. destruct (heappush_spec call ctime dcall h' (activate c) Hh') as [Pq _].
+      eapply Permutation_Forall; [apply Permutation_sym; exact Pq|]. constructor; assumption.
+    - set (s1 := mkSt h' (nw s) (cancels s) (now s) (next s) (ERun c tnow (filter active h') :: log s) (oof s)).
+      destruct (exec_body_old N (body (cid c)) s1 Hr) as [B1 B2]. split; [exact B1|].
+      intros c0 n o Hin. cbn [emit log] in Hin. destruct Hin as [Hin|Hin]; [discriminate|].
+      apply B2 in Hin. cbn [s1 log] in Hin. destruct Hin as [Hin|Hin]; [|left; exact Hin].
+      inversion Hin; subst. right. exact Hc.
+  Qed.
+
+  Lemma loop_runs_old : forall (N : nat) fuel tnow s, Inv s ->
+    Forall (fun x => (cid x < N)%nat) (hp s) ->
+    forall c n o, In (ERun c n o) (log (loop body fuel tnow s)) -> In (ERun c n o) (log s) \/ (cid c < N)%nat.
+  Proof.
+    intros N. induction fuel as [|f IH]; intros tnow s H Hf c0 n0 o0.
+    - cbn [loop]. destruct (hp s) as [|top t]; [auto|]. destruct (_ <=? _); cbn; auto.
+    - destruct (hp s) as [|top t] eqn:Eh; [cbn [loop]; rewrite Eh; auto|].
+      destruct (ctime top <=? tnow) eqn:Edue; [|cbn [loop]; rewrite Eh, Edue; auto].
+      destruct (heappop ctime dcall (top :: t)) as [[c h']|] eqn:Ep; [|apply heappop_none in Ep; discriminate].
+      rewrite (loop_unfold f tnow s top t c h' Eh Edue Ep).
+      pose proof (inv_heap _ H) as Hh. rewrite Eh in Hh.
+      destruct (heappop_spec call ctime dcall _ _ _ Hh Ep) as [Pp [Hh' _]].
+      assert (Hf' : Forall (fun x => (cid x < N)%nat) (c :: h')).
+      { eapply Permutation_Forall; [apply Permutation_sym; exact Pp | exact Hf]. }
+      destruct (after_pop_old N tnow s c h' Hf' Hh') as [A1 A2].
+      intros Hin. apply IH in Hin; [|apply (Inv_after_pop tnow s top t c h' H Eh); [apply Z.leb_le; exact Edue | exact Ep] | exact A1].
+      destruct Hin as [Hin|Hin]; [apply A2; exact Hin | right; exact Hin].
+  Qed.
+
+  Lemma iteration_runs_old : forall fuel ops, let s := run body fuel init ops in
+    forall c n o, In (ERun c n o) (log (run_until_current body fuel s)) ->
+    In (ERun c n o) (log s) \/ (cid c < next s)%nat.
+  Proof.
+    intros fuel ops s c n o Hin. unfold run_until_current in Hin. cbn [emit log] in Hin.
+    destruct Hin as [Hin|Hin]; [discriminate|].
+    assert (Hl : forall x, log (compact x) = log x).
+    { intros x. unfold compact. destruct (_ && _)%bool; reflexivity. }
+    rewrite Hl in Hin.
+    set (s1 := mkSt (hp (insert_new s)) (nw (insert_new s)) (cancels (insert_new s)) (now (insert_new s))
+                    (next (insert_new s)) (EIter :: log (insert_new s)) (oof (insert_new s))) in *.
+    assert (H1 : Inv s1).
+    { apply (Inv_emit_plain (insert_new s) EIter); cbn; auto. apply Inv_insert_new. apply reach_Inv. }
+    apply (loop_runs_old (next s)) in Hin; [|exact H1|].
+    - destruct Hin as [Hin|Hin]; [|right; exact Hin]. cbn [s1 log] in Hin.
+      destruct Hin as [Hin|Hin]; [discriminate | left; exact Hin].
+    - pose proof (inv_ids _ H1) as Hi. apply Forall_app in Hi. destruct Hi as [Hi _]. exact Hi.
+  Qed.
 
   (** ---- statements exported by Property.v ---- *)
   Lemma reach_heap : forall fuel ops, let s := run body fuel init ops in
@@ -544,7 +685,7 @@ Section WithBody.
     { unfold s1. apply Inv_emit_plain; cbn; auto. apply Inv_insert_new. apply reach_Inv. }
     destruct (loop_spec fuel (now s1) s1 H1) as [HI Hf]. specialize (Hf Hoof).
     pose proof (loop_now fuel (now s1) s1) as Hnow.
-    rewrite Hnow.
+    change (now (insert_new s)) with (now s1) in *. rewrite Hnow.
     pose proof (compact_hp_future _ _ Hf) as Hc.
     pose proof (inv_delay _ (Inv_compact _ HI)) as Hd. apply Forall_app in Hd. destruct Hd as [Hd _].
     apply Forall_forall. intros c Hin. apply filter_In in Hin. destruct Hin as [Hin _].
@@ -563,9 +704,11 @@ Section WithBody.
   Proof.
     intros fuel ops L s s'. unfold s', timeout.
     pose proof (Inv_insert_new s (reach_Inv fuel ops)) as H1. fold s in H1.
-    destruct (hp (insert_new s)) as [|top t] eqn:Eh; cbn.
-    - unfold pending. cbn. rewrite Eh. reflexivity.
-    - split; [lia|]. intros c Hc. unfold pending in Hc. cbn in Hc. rewrite app_nil_r in Hc.
+    assert (Hnw : nw (insert_new s) = []) by reflexivity.
+    destruct (hp (insert_new s)) as [|top t] eqn:Eh.
+    - cbn [log emit]. unfold pending. cbn [hp nw emit]. rewrite Eh, Hnw. reflexivity.
+    - cbn [log emit]. split; [lia|]. intros c Hc. unfold pending in Hc. cbn [hp nw emit now] in *.
+      rewrite Hnw, app_nil_r in Hc.
       apply filter_In in Hc. destruct Hc as [Hc _]. rewrite Eh in Hc.
       pose proof (inv_heap _ H1) as Hh. rewrite Eh in Hh.
       pose proof (heap_root_min_in call ctime dcall _ Hh c Hc) as Hm. cbn in Hm.
@@ -573,3 +716,22 @@ Section WithBody.
       rewrite Forall_forall in Hd. specialize (Hd c Hc). cbn in Hd. unfold getTime. lia.
   Qed.
 End WithBody.
+
+(** a non-trivial history: lazy delayed_time (reset to later), in-place sift-up (reset to earlier, negative
+    delay), a call scheduled from a running call, a cancellation, two iterations *)
+Definition ex_body (i : nat) : list bop :=
+  match i with
+  | 0%nat => [BCallLater 0; BCancel 1]
+  | _ => []
+  end.
+Definition ex_ops : list op :=
+  [Do (BCallLater 5); Do (BCallLater 5); Do (BCallLater 9); Do (BCallLater 7); RunUntilCurrent;
+   Do (BReset 3 12); Do (BReset 2 6); Do (BDelay 3 (-4)); Timeout 1000; Adv 6; RunUntilCurrent; Timeout 1000;
+   Adv 2; RunUntilCurrent; Timeout 1000].
+
+Example ex_runs :
+  let s := run ex_body 60 init ex_ops in
+  rev (run_ids (log s)) = [0; 2; 4; 3]%nat /\ rev (run_times (log s)) = [5; 6; 6; 8]
+  /\ cancelled_ids (log s) = [1%nat] /\ pending s = [] /\ oof s = false
+  /\ In (ETimeout (Some 5)) (log s) /\ In (ETimeout (Some 0)) (log s) /\ In (ETimeout None) (log s).
+Proof. vm_compute. repeat split; auto 20. Qed.
